@@ -137,8 +137,8 @@ func (h *c09H) txMsg(sub string) (msg sdk.Msg, ok bool) {
 		w := map[string]string{"submit": "top", "submitNested": "nested", "viaUpdate": "top", "viaUpdateNested": "nested", "viaWrapped": "wrapped", "viaWrappedNested": "nestedwrapped"}[m["k"]]
 		return h.wrapRoute(w, inner), true
 	case "lc_chanack":
-		if m["ibc"] != "0" {
-			return nil, false // a verifying handshake proof needs a counterparty chain; only the failing ack travels in a tx
+		if m["ibc"] != "0" || (m["w"] != "" && m["w"] != "top") {
+			return nil, false // a verifying handshake proof needs a counterparty chain; only the failing top-level ack travels in a tx
 		}
 		chID := "channel-" + strings.TrimPrefix(f[1], "ch")
 		return channeltypes.NewMsgChannelOpenAck("transfer", chID, "channel-77", "ics20-1", []byte("proof"), clienttypes.NewHeight(1, 1), h.e.relayer.String()), true
